@@ -8,7 +8,10 @@ PREC = {"or": 1, "and": 2, "not": 3, "cmp": 4, "like": 4, "isnull": 4, "+": 5, "
 
 def col(c): return {"t": "col", "c": c}
 def num(n, d=1): return {"t": "num", "n": n, "d": d}
-def strlit(s): return {"t": "str", "cs": list(s)}
+def strlit(s, dq=False):
+    e = {"t": "str", "cs": list(s)}
+    if dq: e["dq"] = 1          # written in double quotes (the text may then hold single quotes)
+    return e
 def par(a): return {"t": "par", "a": a}
 
 
@@ -28,7 +31,7 @@ def sql(e):
         return ".".join(e["p"])
     if t == "num":
         return str(e["n"]) if e["d"] == 1 else repr(e["n"] / e["d"])
-    if t == "str": return "'" + "".join(e["cs"]) + "'"
+    if t == "str": return ('"' + "".join(e["cs"]) + '"') if e.get("dq") else ("'" + "".join(e["cs"]) + "'")
     if t == "par": return "(" + sql(e["a"]) + ")"
     if t == "neg": return "-" + wrap(e["a"], PREC["neg"])
     if t == "bin":
@@ -139,9 +142,13 @@ class Gen:
         if k == "substring2": return {"t": "fn", "f": "substring", "args": [col("s"), num(r.choice([0, 1, 2]))]}
         if k == "substring3":
             st = r.choice([0, 1]); return {"t": "fn", "f": "substring", "args": [col("s"), num(st), num(r.choice([0, 1, 2 - st]))]}
+        if k == "replace" and r.random() < 0.35:
+            # literals holding the OTHER quote character, commas and parentheses: argument splitting must not be misled by them
+            return {"t": "fn", "f": "replace", "args": [x(), r.choice([strlit('"'), strlit("a"), strlit("'", True), strlit('b"'), strlit(","), strlit("(")]),
+                                                         r.choice([strlit(""), strlit('q"r,s'), strlit("it's, ok)", True), strlit('"("'), strlit("x,y")])]}
         if k == "replace": return {"t": "fn", "f": "replace", "args": [x(), strlit(r.choice(["a", "ab", " ", "b"])), strlit(r.choice(["", "zz", "a", "x"]))]}
-        if k in ("lpad", "rpad"): return {"t": "fn", "f": k, "args": [col("s"), num(r.choice([5, 6, 8])), strlit(r.choice(["*", "0", " "]))]}
-        return {"t": "fn", "f": r.choice(["coalesce", "if_null"]), "args": [col(r.choice(["s", "n"])), strlit("dflt")]}
+        if k in ("lpad", "rpad"): return {"t": "fn", "f": k, "args": [col("s"), num(r.choice([5, 6, 8])), r.choice([strlit("*"), strlit("0"), strlit(" "), strlit('"'), strlit("'", True), strlit(",")])]}
+        return {"t": "fn", "f": r.choice(["coalesce", "if_null"]), "args": [col(r.choice(["s", "n"])), r.choice([strlit("dflt"), strlit("dflt"), strlit('a "quoted", text'), strlit("it's empty, sorry", True), strlit("f(x), y")])]}
 
     def fn_bool(self):
         r = self.r
@@ -169,7 +176,7 @@ class Gen:
         row = {"id": i, "q": r.choice([0, 1, 4, 9, 16, {"$f": 2.25}, {"$f": 6.25}, {"$f": 0.25}]), "bb": r.choice([True, False])}
         for c in NUMCOLS:
             row[c] = r.choice([-3, -1, 0, 1, 2, 3, 5, 7, {"$f": 2.5}, {"$f": -2.5}, {"$f": 0.5}, {"$f": 2.25}, {"$f": -0.75}, {"$f": 3.0}])
-        row["s"] = r.choice(["ab", " ab", "ab ", " a b ", "abab", "ba", "xz", "b", "  ", "aab", "abz"])
+        row["s"] = r.choice(["ab", " ab", "ab ", " a b ", "abab", "ba", "xz", "b", "  ", "aab", "abz", 'a"b', "a,b", "b'a"])
         if r.random() < 0.5: row["n"] = None
         return row
 
